@@ -235,3 +235,50 @@ func Harness_C09_desc_reports_ordered_marks() {
 	verifAssert(found, "description-answered")
 	verifReach("end")
 }
+
+// ---- the 'me' side of a relayed note: the real broadcastToSessions of a user's 'me' topic given an {info} that
+// another topic routed to it (Src names that topic). A typing note never reaches any session of the typist - the
+// typist's own 'me' is addressed too (its other devices get receipts that way) - sessions attached to the source
+// topic already got the note there and are skipped, and so is the originating session.
+func Harness_C09_me_side_relay() {
+	u := types.Uid(5)
+	peer := types.Uid(6)
+	fx := verifNewTopic(verifKindMe, 1)
+	fx.uids[0] = u
+	t := fx.topic
+	t.name = u.UserId()
+	t.perUser = map[types.Uid]perUserData{u: {modeWant: types.ModeCSelf, modeGiven: types.ModeCSelf}}
+	src := u.P2PName(peer)
+	var sess []*Session
+	var onSource []bool
+	for i := 0; i < 3; i++ {
+		s := verifNewSession("sid-"+string(rune('a'+i)), u, auth.LevelAuth, 16)
+		t.sessions[s] = perSessionData{uid: u}
+		s.subs[t.name] = &Subscription{}
+		att := verifNondetBool("attachedToTheSourceTopic")
+		if att {
+			s.subs[src] = &Subscription{}
+		}
+		sess = append(sess, s)
+		onSource = append(onSource, att)
+	}
+	what := []string{"kp", "kpa", "read", "recv"}[verifChoose("what", 4)]
+	from := []types.Uid{u, peer}[verifChoose("from", 2)]
+	skip := []string{"", "sid-a"}[verifChoose("skipSid", 2)]
+	msg := &ServerComMessage{Info: &MsgServerInfo{Topic: "me", Src: peer.UserId(), From: from.UserId(), What: what, SeqId: 4, SkipTopic: src},
+		RcptTo: t.name, SkipSid: skip}
+	t.handleServerMsg(msg)
+	for i, s := range sess {
+		got := verifDrainSend(s)
+		if len(got) == 0 {
+			continue
+		}
+		verifAssert(len(got) == 1 && got[0] != nil && got[0].Info != nil, "relay-delivered-once")
+		verifAssert(!onSource[i], "relay-skips-sessions-attached-to-the-source-topic")
+		verifAssert(s.sid != skip, "relay-skips-the-originating-session")
+		if what == "kp" {
+			verifAssert(from != u, "kp-never-to-typists-sessions")
+		}
+	}
+	verifReach("end")
+}
